@@ -67,15 +67,15 @@ UNITS += [
     t_unit('ctor_default', 0, None, 'TransitionT__ctor0', dict(
         requires=[fresh('self')], assigns=['*self'],
         # a request made without a payload exposes none
-        ensures=[('C07', '!self->payloadSet && self->_b0.destination == 255 && self->_b0.origin == 255 && self->_b0.method == Method__NONE')])),
+        ensures=[('C07,C17', '!self->payloadSet && self->_b0.destination == 255 && self->_b0.origin == 255 && self->_b0.method == Method__NONE')])),
     dict(id='control.TransitionT.ctor_dest', witness=W, recs=T_RECS, props=['C07', 'C02', 'C18'], ghost=GJ,
          target=dict(cls=r'^ffsm2::detail::TransitionT<int>$', kind='ctor', name='TransitionBase', nparams=1, sig=r'^void \(const ffsm2::StateID\)'),
          contracts={'TransitionT__ctor1': dict(requires=[fresh('self')], assigns=['*self'],
-                    ensures=[('C07', '!self->payloadSet && self->_b0.destination == {p0} && self->_b0.origin == 255 && self->_b0.method == Method__NONE')])}),
+                    ensures=[('C07,C17', '!self->payloadSet && self->_b0.destination == {p0} && self->_b0.origin == 255 && self->_b0.method == Method__NONE')])}),
     dict(id='control.TransitionT.ctor_origin_dest', witness=W, recs=T_RECS, props=['C07', 'C02', 'C18'], ghost=GJ,
          target=dict(cls=r'^ffsm2::detail::TransitionT<int>$', kind='ctor', name='TransitionBase', nparams=2, sig=r'^void \(const ffsm2::StateID, const ffsm2::StateID\)'),
          contracts={'TransitionT__ctor2': dict(requires=[fresh('self')], assigns=['*self'],
-                    ensures=[('C07', '!self->payloadSet && self->_b0.origin == {p0} && self->_b0.destination == {p1} && self->_b0.method == Method__NONE')])}),
+                    ensures=[('C07,C17', '!self->payloadSet && self->_b0.origin == {p0} && self->_b0.destination == {p1} && self->_b0.method == Method__NONE')])}),
     dict(id='control.TransitionT.payload', witness=W, recs=T_RECS, props=['C07', 'C18'], ghost=GJ,
          target=dict(cls=r'^ffsm2::detail::TransitionT<int>$', name='payload', nparams=0),
          contracts={'TransitionT__payload': dict(requires=[fresh('self')], assigns=[],
